@@ -346,6 +346,15 @@ package server
 //@   assumes s != nil && s.metadata != nil
 //@   call ReportGroupCoordinator requires [the-operation-body-is-present] arg2 != nil
 
+// A replication request is a NATS payload too (C14): whatever replica id it names, the leader must not crash. The leader
+// keeps a replicator for every replica EXCEPT itself (startReplicating), so "is a replica" does not imply "has a
+// replicator".
+//@ func (*partition).handleReplicationRequest serves C14
+//@   assumes p != nil && p.Partition != nil && p.srv != nil && p.srv.config != nil && p.srv.logger != nil && msg != nil
+//@   assumes [a-replicator-for-every-replica-but-this-server] forall r string :: (r in p.replicators) == ((r in p.replicas) && r != p.srv.config.Clustering.ServerID)
+//@   assumes forall r string :: (r in p.replicators) ==> p.replicators[r] != nil
+//@   safety
+
 // ---------------------------------------------------------------------------------------------
 // One active group subscription per partition (property C13)
 //
